@@ -569,6 +569,11 @@ def run(repo, chk, tier):
     chk.assume("option flow through dicts is by string key; the only renaming sites are the call sites and literal lists enumerated here")
     chk.assume("registered preprocessors are the classes decorated with @register_preprocessor in the parsed tree")
 
+    # the alignment rotation between two chains' frames is extracted from an SU(2) product: the extraction must
+    # reproduce the matrix including its sign (half-integer spins), whichever chain is the reference
+    from .c12_su2 import check_su2
+
+    check_su2(repo, chk, parts=("euler",))
     res = Resolver(repo)
     entry = repo.fn(ENTRY)
     options = set(entry.all_param_names()) - DATA_PARAMS
